@@ -96,7 +96,9 @@ fn mt_sound(prop: &str, rule: &str, sig: &str) -> bool {
         ("C07", "R3") => sig.starts_with("restart_only_changed") || sig.starts_with("recreate_kept") || sig.starts_with("state;") || sig.starts_with("non_restartable_restarted") || sig.starts_with("no_stopped_before_restart"),
         ("C08", "R1") => true,
         ("C10", "R1" | "R3") => true,
-        ("C15", "R1" | "R2" | "R4" | "R5") => true,
+        ("C15", "R1" | "R2" | "R4") => true,
+        ("C15", "R5") => !sig.starts_with("c09:") || sig.starts_with("c09:R1") || sig.starts_with("c09:R2") || sig.starts_with("c09:R3"),
+        ("C15", "R6") => true,
         ("C09", "R1" | "R2" | "R3" | "R4") => true,
         ("C12", "R1" | "R3") => true,
         ("C13", "R1" | "R3") => !sig.starts_with("unfinished"),
@@ -108,9 +110,9 @@ fn mt_sound(prop: &str, rule: &str, sig: &str) -> bool {
 }
 
 fn mt_premise(key: &str) -> bool {
-    const OK: [&str; 37] = [
+    const OK: [&str; 38] = [
         "C07.R2", "C07.R3.strategy_model", "C07.R3.state_carried_or_reset", "C07.R3.non_restartable_ignores", "C07.R1", "C10.R1", "C10.R3", "C15.R1", "C15.R2", "C15.R4", "C15.R5",
-        "C15.R9",
+        "C15.R9", "C15.R6",
         "C01.", "C02.R1", "C02.R2", "C02.R3", "C03.R1", "C03.R2", "C03.R4", "C04.R1", "C04.R2", "C04.R4", "C05.R3.upgrade_after_last_drop", "C05.R1.no_termination_while_held", "C08.", "C09.R1", "C09.R2", "C09.R3",
         "C09.R4", "C12.R1", "C12.R3", "C13.R1", "C13.R3", "C16.R3", "C17.R2", "C17.R3", "C17.R1.join_after_stopped",
     ];
